@@ -153,10 +153,8 @@ def run_histories(ctx, lines, expect):
                 lines.append(f"udictdel {enc_s(k)}"); expect.append("ok" if r[0] == "ok" else "err " + r[1])
             elif op == "pickle":
                 o = rng.choice([lambda x: pickle.loads(pickle.dumps(x)), copy.deepcopy, copy.copy])(o)
-                if kind in ("Scalar", "Vector", "XYData"):
-                    # rebuilt through the constructor with units "": an absent units key is stored as ""
-                    for _a, k3 in attrs:
-                        lines.append(f"uctor 0 {enc_s(k3)} s_"); expect.append("ok")
+                # (a copy has exactly the dictionary of the original: since fix d-units of /repo the constructor's default units
+                #  entry is not added to a rebuilt object that had none)
             ctx.count("history-op", op)
             # oracle: every attribute is the dictionary entry (or "")
             for a2, k2 in attrs:
